@@ -33,6 +33,7 @@ type Env struct {
 	Queue   []*wire.MsgBlock // tip notifications announced but not yet processed
 	Wrap    func(mwdb.DB) mwdb.DB
 	worker  bool
+	closed  bool
 	stopErr error
 }
 
@@ -184,6 +185,10 @@ func (e *Env) Restart() error {
 
 // Close stops everything and removes the directory.
 func (e *Env) Close() {
+	if e.closed {
+		return
+	}
+	e.closed = true
 	e.StopWallet()
 	os.RemoveAll(e.Dir)
 }
